@@ -99,7 +99,7 @@ TRUTHY = [1, 2, -1, 'x', 0.5, True, [0], '0']
 FALSY = [0, '', None, 0.0, False, [], 0, '']
 RHS_FAMILY = {'str_bin': 'str', 'str_hex': 'str', 'str_oct': 'str', 'str_mix': 'str', 'str_uint': 'str',
               'bytes': 'bytes-like', 'bytearray': 'bytes-like', 'memoryview': 'bytes-like', 'array': 'bytes-like',
-              'memoryview_cast': 'bytes-like', 'array_H': 'bytes-like',
+              'memoryview_cast': 'bytes-like', 'memoryview_strided': 'bytes-like', 'array_H': 'bytes-like',
               'bytesio': 'file-like', 'filehandle': 'file-like',
               'list': 'iterable', 'tuple': 'iterable', 'gen': 'iterable', 'truthy': 'iterable', 'truthy_iter': 'iterable',
               'bitarray': 'bitarray', 'frozenbitarray': 'bitarray'}
@@ -560,7 +560,7 @@ def rhs_for(rng, bits):
     if 0 < L <= 5000:
         kinds += ['str_uint']
     if L % 8 == 0:
-        kinds += ['bytes', 'bytes', 'bytearray', 'memoryview', 'memoryview_cast', 'array', 'array_H', 'bytesio']
+        kinds += ['bytes', 'bytes', 'bytearray', 'memoryview', 'memoryview_cast', 'memoryview_strided', 'array', 'array_H', 'bytesio']
         if L >= 8:
             kinds += ['filehandle']
     return [rng.choice(kinds), bits, rng.randrange(8)]
@@ -603,6 +603,12 @@ def build_rhs(rhs, made):
         # the same bytes seen as 2- or 4-byte items (len() of such a view counts items, not bytes)
         mv = memoryview(to_raw(bits))
         return mv.cast('I') if L % 32 == 0 and L else mv.cast('H') if L % 16 == 0 and L else mv
+    if kind == 'memoryview_strided':
+        # a view that is not contiguous in memory: every second byte of a longer buffer, or a buffer seen backwards
+        raw = to_raw(bits)
+        if style % 2:
+            return memoryview(raw[::-1])[::-1]
+        return memoryview(bytes(b for x in raw for b in (x, 0xa5)))[::2]
     if kind == 'array_H':
         raw = to_raw(bits)
         return array.array('H', raw) if L % 16 == 0 else array.array('B', raw)
